@@ -17,6 +17,21 @@ for k,v in d.items():
   rm -f props_index.json
 fi
 for f in MANIFEST.json lean/MdsVerif/Driver.lean lean/MdsVerif.lean; do git checkout --ours -- "$f" 2>/dev/null || true; done
+# known_findings.json: union of the entries by id (ours first)
+if ! git diff --quiet "$b" HEAD -- known_findings.json 2>/dev/null; then
+  git show HEAD:known_findings.json > /tmp/kf_ours.$$ ; git show "$b:known_findings.json" > /tmp/kf_theirs.$$
+  python3 - /tmp/kf_ours.$$ /tmp/kf_theirs.$$ <<'PY'
+import json,sys
+o=json.load(open(sys.argv[1])); t=json.load(open(sys.argv[2]))
+ids={f['id'] for f in o['findings']}
+o['findings'] += [f for f in t['findings'] if f['id'] not in ids]
+json.dump(o,open('known_findings.json','w'),indent=1)
+PY
+  rm -f /tmp/kf_ours.$$ /tmp/kf_theirs.$$
+fi
+# evidence files are rewritten by every run: keep ours
+git checkout --ours -- evidence 2>/dev/null || true
+if grep -rln '^<<<<<<< ' --include='*' . 2>/dev/null | grep -v '^./.git/\|/.lake/' | grep -q .; then echo "CONFLICT MARKERS in:"; grep -rln '^<<<<<<< ' . | grep -v '^./.git/\|/.lake/'; exit 1; fi
 python3 tools/mkdriver.py
 python3 tools/mkmanifest.py
 git add -A
